@@ -500,7 +500,15 @@ pub fn orchestrate(harness_name: &str, property: &str, args: &Args, extra_args: 
 }
 
 /// Standard `main` for a DEX harness binary: worker mode, replay mode or orchestrator.
+pub type Post<'a> = Box<dyn FnOnce(&mut serde_json::Map<String, Value>, &mut Vec<ViolationRec>) + 'a>;
+
 pub fn dex_main<H: Harness>(h: &H, args: &Args, extra_args: &[String], assumptions: Vec<String>, rule: &str) -> i32 {
+	dex_main_with(h, args, extra_args, assumptions, rule, None)
+}
+
+/// Like `dex_main`; `post` runs in the orchestrator after the exploration and may add
+/// coverage entries and violations (e.g. a model-level check, a loom leg).
+pub fn dex_main_with<H: Harness>(h: &H, args: &Args, extra_args: &[String], assumptions: Vec<String>, rule: &str, post: Option<Post<'_>>) -> i32 {
 	if let Some(path) = &args.replay {
 		return replay(h, path);
 	}
@@ -511,6 +519,7 @@ pub fn dex_main<H: Harness>(h: &H, args: &Args, extra_args: &[String], assumptio
 		std::fs::write(&out, serde_json::to_string(&r).unwrap()).expect("write worker result");
 		return 0;
 	}
+	let t_start = Instant::now();
 	let (m, notes) = orchestrate(h.name(), h.property(), args, extra_args);
 	let mut cov = serde_json::Map::new();
 	let complete: Vec<&PassReport> = m.passes.iter().filter(|p| p.scenarios_complete == p.scenarios).collect();
@@ -541,7 +550,10 @@ pub fn dex_main<H: Harness>(h: &H, args: &Args, extra_args: &[String], assumptio
 	);
 	cov.insert("counters".into(), json!(m.counters));
 	cov.insert("workers".into(), json!(args.workers));
-	let viols: Vec<ViolationRec> = m.violations.into_values().collect();
+	let mut viols: Vec<ViolationRec> = m.violations.into_values().collect();
+	if let Some(p) = post {
+		p(&mut cov, &mut viols);
+	}
 	// a worker that was killed at the hard cap is a cap, not a machinery error, as long
 	// as the others reported; a divergence / nondeterminism report is machinery
 	let machinery = m.machinery.filter(|s| !s.contains("hard wall cap") || m.stats.executions == 0);
@@ -549,7 +561,7 @@ pub fn dex_main<H: Harness>(h: &H, args: &Args, extra_args: &[String], assumptio
 		property: h.property().to_string(),
 		tier: args.tier,
 		seed: args.seed,
-		wall_s: m.wall_s,
+		wall_s: t_start.elapsed().as_secs_f64(),
 		coverage: cov,
 		assumptions,
 		violations: viols,
